@@ -338,3 +338,44 @@ insphere2d_cube2!(c12_insphere2d_lifted_g3_edge_a, 3, [0, 0], [1, 0], call_insph
 insphere2d_cube2!(c12_insphere2d_robust1_g3_edge_a, 3, [0, 0], [1, 0], call_robust_stage1);
 insphere2d_cube2!(c12_insphere2d_robust3_g3_edge_a, 3, [0, 0], [1, 0], call_robust_stage3);
 insphere2d_cube2!(c12_insphere2d_robust3_g3_edge_b, 3, [-3, 2], [3, -1], call_robust_stage3);
+
+// ---------------------------------------------------------------------------
+// In-sphere on small-scale dyadic input: coordinates are integers times 2^-k. The exact
+// determinant is n * 2^-4k with |n| >= 1; for k <= 10 that is at least 9e-13, more than 100x the
+// documented tolerance 1e-15 + 1e-12 * |A|_inf (|A|_inf <= 8 * 2^-k + ...), so the strict sign
+// is demanded.
+// ---------------------------------------------------------------------------
+
+macro_rules! insphere2d_dyadic_edge {
+    ($name:ident, $call:expr) => {
+        harness! {
+            // bound: D=2 in-sphere on 2^-k * Z^2, k symbolic in 0..=10: simplex edge fixed at (0,0)-(1,0) (scaled), third vertex + query in [-2,2]^2 (scaled)
+            #[kani::unwind(6)]
+            fn $name() {
+                let k: u8 = kani::any();
+                kani::assume(k <= 10);
+                let s = f64::from_bits((1023_u64 - u64::from(k)) << 52); // 2^-k exactly
+                let (ia, pa) = fixed_pt2(0, 0, s);
+                let (ib, pb) = fixed_pt2(1, 0, s);
+                let (ic, pc) = grid_pt2(2, s);
+                let (iq, pq) = grid_pt2(2, s);
+                let tri = [ia, ib, ic];
+                let exact_o = sign(exact_orient2(&tri));
+                let exact_in = exact_incircle(&tri, iq);
+                let pts = [pa, pb, pc];
+                let got: Result<i32, ()> = $call(&pts, pq);
+                // orientation determinant is m * 2^-2k >= 9.5e-7: far above the tolerance as well
+                check_insphere2(exact_o, exact_in, got);
+                kani::cover!(k == 10 && exact_o != 0 && sign(exact_in) * exact_o > 0, "inside at the smallest scale reached");
+                kani::cover!(k == 10 && exact_o != 0 && sign(exact_in) * exact_o < 0, "outside at the smallest scale reached");
+                kani::cover!(exact_o != 0 && exact_in == 0, "cocircular reached");
+                kani::cover!(k == 0 && exact_o != 0, "unit scale reached");
+            }
+        }
+    };
+}
+
+insphere2d_dyadic_edge!(c12_insphere2d_fast_dyadic_edge, call_fast_in_sphere);
+insphere2d_dyadic_edge!(c12_insphere2d_lifted_dyadic_edge, call_insphere_lifted);
+insphere2d_dyadic_edge!(c12_insphere2d_robust1_dyadic_edge, call_robust_stage1);
+insphere2d_dyadic_edge!(c12_insphere2d_robust3_dyadic_edge, call_robust_stage3);
